@@ -27,11 +27,22 @@ fn followups() -> Vec<HOp<BtOp>> {
     ]
 }
 
+/// histories up to this depth get the mutation-during-flush enumeration (quick 2, thorough 3)
+static MIDFLUSH_DEPTH: std::sync::atomic::AtomicUsize = std::sync::atomic::AtomicUsize::new(2);
+
 fn mode() -> Mode<BtOp> {
     Mode::Crash(CrashOpts {
         followups: followups(),
         cuts: true,
         err_prefixes: true,
+        midflush: vec![
+            BtOp::Insert(2, 0),
+            BtOp::Insert(2, 3),
+            BtOp::Remove(0, 0),
+            BtOp::Remove(0, 3),
+            BtOp::InsertArray(1, vec![0, 1, 2, 3]),
+        ],
+        midflush_depth: MIDFLUSH_DEPTH.load(std::sync::atomic::Ordering::Relaxed),
     })
 }
 
@@ -63,6 +74,7 @@ fn run_job<K: Key>(run: &mut Run, job: &Job, budget_s: f64) -> ExploreOut {
 
 fn main() {
     let mut run = Run::from_args("C10", "crash", "model_checking");
+    MIDFLUSH_DEPTH.store(run.tier.pick(2, 3), std::sync::atomic::Ordering::Relaxed);
     if let Some(file) = run.replay_file.clone() {
         let doc: serde_json::Value = match std::fs::read(&file).ok().and_then(|d| serde_json::from_slice(&d).ok()) {
             Some(d) => d,
@@ -132,7 +144,10 @@ fn main() {
          every subset of the deletions; each is loaded with load_all and must answer the light battery as the last committed model \
          or as the interrupted flush's model (whole); from each distinct crash state 5 follow-up ops (insert, insert long key, \
          remove, remove_array, compact) each followed by flush + load + battery. Every write position is also failed once \
-         (closure returns Err): flush must return Err, live index unchanged, durable = last commit, retried flush persists the state",
+         (closure returns Err): flush must return Err, live index unchanged, durable = last commit, retried flush persists the state. \
+         Mutation during a flush (histories to depth 2 quick / 3 thorough): at every write position one mutation from a small set is \
+         applied from INSIDE the flush write closure (the flush is suspended in its I/O); the disturbed flush must commit the \
+         pre-mutation snapshot whole, the live index has the mutation, and the next undisturbed flush + load has it too",
     );
     run.assume("a crash loses exactly the writes not yet acknowledged by the flush closures; object puts/deletes are atomic per object (object-store contract, checked by C07/C08)");
     run.assume("legacy start states are fabricated from a real flush: manifest stripped from the metadata, bucket objects renamed to generation 0 (the layout the crate docs and its tests describe); stale duplicate postings across legacy buckets are not fabricated");
